@@ -179,6 +179,17 @@ CHECKS = {
         note="Skeleton family is bounded (depth<=3, seeded); dict-vs-leaf clashes excluded. The schema compiler covers the keyword subset "
              "the packaged schema uses and is cross-validated against jsonschema on every solver witness.",
         design="3/C16"),
+    "C20": dict(
+        engine="symnum+z3",
+        technique="symbolic execution of evec_disp2eig with sqrt / inverse atoms (z3 nlsat identities, complex rows as Sym pairs); forking "
+                  "execution of evec_sort over a symbolic perturbation box where z3 decides every abs/argmax comparison",
+        text="Small bounds: disp2eig (M<=2, N<=2) returns unit-norm rows parallel to M^(1/2) d for all displacement rows and positive "
+             "masses, restores an orthonormal pair (nlsat under orthonormality constraints), uses the Hermitian norm, rejects shape "
+             "mismatches; evec_sort (n=2,3; rational orthonormal bases; signed permutations; perturbation box [-0.05,0.05]^(n x n)) returns "
+             "the expected order on every feasible path of the greedy argmax.",
+        note="Outside: dimensions 4-60, arbitrary irrational/complex unitary bases and complex phases for the sort, evec_load (file "
+             "parsing, same reason as C17).",
+        design="3/C20"),
 }
 
 NOT_APPLICABLE = {
